@@ -31,10 +31,12 @@ struct Monitor {
     /// class and position of the most recent deliverable token
     last_class: u8,
     last_pos: usize,
+    /// the raw stream ends exactly at `limit` tokens (no nondeterministic early end)
+    exact_end: bool,
 }
 
 static mut MON: Monitor =
-    Monitor { issued: 0, limit: 0, ended: false, depth: 0, deliverable: 0, last_class: 0, last_pos: 0 };
+    Monitor { issued: 0, limit: 0, ended: false, depth: 0, deliverable: 0, last_class: 0, last_pos: 0, exact_end: false };
 
 /// Stub for `<Tok as Logos>::lex`: hands out an arbitrary raw token and consumes one byte, or
 /// reports end of input (then keeps reporting it). Contract kept from logos: tokens are
@@ -48,14 +50,16 @@ fn lex_stub<'s: 's>(lexer: &mut logos::Lexer<'s, Tok<'s>>) -> Option<Result<Tok<
     let m = unsafe { &mut *std::ptr::addr_of_mut!(MON) };
     let pos = lexer.span().end;
     assert!(pos == m.issued, "harness invariant: one byte per raw token");
-    if m.ended || m.issued >= m.limit || kani::any() {
+    if m.ended || m.issued >= m.limit || (!m.exact_end && kani::any()) {
         m.ended = true;
+        tooling_observe_end(m.limit, m.issued);
         return None;
     }
     lexer.bump(1);
     let class: u8 = kani::any();
     kani::assume(class < NCLASS);
     m.issued += 1;
+    tooling_observe(class, pos, m.issued);
     if m.depth > 0 {
         if class == OPEN {
             m.depth += 1;
@@ -241,4 +245,166 @@ fn c11_dfa_b1() {
 #[kani::unwind(5)]
 fn c11_dfa_b2() {
     dfa_check::<2>();
+}
+
+/* ----------------- the tooling lexer (LexicalTokens): same stub, inductive step ----------------- */
+
+const K_PUNCT: u8 = 0;
+const K_TEXT: u8 = 1;
+const K_COMMENT: u8 = 2;
+const K_OPERATOR: u8 = 3;
+
+/// Reference state of the tooling lexer, advanced by the stub next to `MON`.
+struct ToolingMonitor {
+    active: bool,
+    depth: usize,
+    has_start: bool,
+    start: usize,
+    /// the reference result of the current call, once determined
+    done: bool,
+    some: bool,
+    r_start: usize,
+    r_end: usize,
+    r_kind: u8,
+    /// raw tokens handed out when the reference result was determined
+    issued_at_done: usize,
+}
+
+static mut TMON: ToolingMonitor = ToolingMonitor {
+    active: false, depth: 0, has_start: false, start: 0, done: false, some: false, r_start: 0, r_end: 0, r_kind: 0, issued_at_done: 0,
+};
+
+/// Reference transition of `LexicalTokens` on one raw token at byte `pos` (called by the stub).
+fn tooling_observe(class: u8, pos: usize, issued: usize) {
+    let t = unsafe { &mut *std::ptr::addr_of_mut!(TMON) };
+    if !t.active || t.done {
+        return;
+    }
+    let mut result: Option<(usize, usize, u8)> = None;
+    if t.depth > 0 {
+        if class == OPEN {
+            t.depth += 1;
+        } else if class == CLOSE {
+            t.depth -= 1;
+            if t.depth == 0 {
+                result = Some((t.start, pos + 1, K_COMMENT));
+                t.has_start = false;
+            }
+        }
+    } else if class == OPEN {
+        t.has_start = true;
+        t.start = pos;
+        t.depth = 1;
+    } else if class == CODE {
+        result = Some((pos, pos + 1, K_PUNCT));
+    } else if class == TEXT_LINE {
+        result = Some((pos, pos + 1, K_TEXT));
+    } else if class == COMMENT_LINE {
+        result = Some((pos, pos + 1, K_COMMENT));
+    } else if class == CLOSE {
+        result = Some((pos, pos + 1, K_OPERATOR));
+    } // UNKNOWN: not highlightable, skipped
+    if let Some((s, e, k)) = result {
+        t.done = true;
+        t.some = true;
+        t.r_start = s;
+        t.r_end = e;
+        t.r_kind = k;
+        t.issued_at_done = issued;
+    }
+}
+
+/// Reference transition at the end of the raw stream.
+fn tooling_observe_end(source_len: usize, issued: usize) {
+    let t = unsafe { &mut *std::ptr::addr_of_mut!(TMON) };
+    if !t.active || t.done {
+        return;
+    }
+    t.done = true;
+    t.issued_at_done = issued;
+    if t.has_start {
+        // an unterminated block comment is reported up to the end of the source, once
+        t.some = true;
+        t.r_start = t.start;
+        t.r_end = source_len;
+        t.r_kind = K_COMMENT;
+        t.has_start = false;
+    } else {
+        t.some = false;
+    }
+}
+
+/// One call of `LexicalTokens::next` from an arbitrary state satisfying the representation
+/// invariant `comment_depth > 0  <=>  comment_start.is_some()` (established by `new`, re-checked
+/// after the call together with equality to the reference state). Claim for the call: no panic
+/// (in particular `expect("a nested comment has an opening range")` cannot fail); the reported
+/// token is exactly the reference's - a token outside comments with its own range and lexical
+/// role, or one Comment range from the recorded opening of a block comment to the end of its
+/// matching terminator (to the end of the source if it is never closed); and the call reads no
+/// raw token beyond the one that completes its result (nothing is lost for the next call).
+fn tooling_step_check(kmax: usize) {
+    let d0: usize = kani::any();
+    kani::assume(d0 <= (u32::MAX as usize));
+    let start0: usize = kani::any();
+    let len: usize = kani::any();
+    kani::assume(len <= kmax);
+    unsafe {
+        MON.limit = len;
+        MON.exact_end = true;
+        MON.depth = d0;
+        TMON.active = true;
+        TMON.depth = d0;
+        TMON.has_start = d0 > 0;
+        TMON.start = start0;
+    }
+    let mut tokens = LexicalTokens::new(SRC);
+    tokens.source_len = len;
+    tokens.comment_depth = d0;
+    tokens.comment_start = if d0 > 0 { Some(start0) } else { None };
+    let got = tokens.next();
+    let m = unsafe { &*std::ptr::addr_of!(MON) };
+    let t = unsafe { &*std::ptr::addr_of!(TMON) };
+    assert!(t.done, "harness: the reference reaches a result whenever the call returns");
+    match &got {
+        | None => assert!(!t.some, "a highlightable token or comment was dropped"),
+        | Some(token) => {
+            assert!(t.some, "a token was reported where the reference has none");
+            assert!(token.range.start == t.r_start && token.range.end == t.r_end, "reported range is the token's own range / the whole block comment");
+            let kind = match token.kind {
+                | LexicalTokenKind::Punctuation => K_PUNCT,
+                | LexicalTokenKind::TextBlock => K_TEXT,
+                | LexicalTokenKind::Comment => K_COMMENT,
+                | LexicalTokenKind::Operator => K_OPERATOR,
+                | _ => 255,
+            };
+            assert!(kind == t.r_kind, "reported lexical role");
+        }
+    }
+    assert!(m.issued == t.issued_at_done, "the call read exactly the raw tokens up to its result");
+    assert!(tokens.comment_depth == t.depth, "comment depth equals the reference depth after the call");
+    assert!(tokens.comment_start.is_some() == t.has_start, "an opening is recorded exactly while inside a comment");
+    if let Some(start) = tokens.comment_start {
+        assert!(start == t.start, "recorded opening is the reference opening");
+    }
+    kani::cover!(t.some && t.r_kind == K_COMMENT && d0 == 0 && t.r_end > t.r_start + 2, "a block comment opened and closed within the call");
+    kani::cover!(t.some && t.r_end == len && m.ended, "unterminated comment flushed at end of input");
+    std::mem::forget(tokens);
+    std::mem::forget(got);
+}
+
+//@ id: c11_tooling_step_k6
+//@ property: C11
+//@ tier: quick
+//@ encodes: <textual::lexer::LexicalTokens as Iterator>::next (one call from an arbitrary state), LexicalTokens::{new, classify}
+//@ sym: pre-state: comment depth d0 (any value up to 2^32) with an arbitrary recorded opening; source of up to 6 raw tokens, each from {code token, Unknown, TextLine, CommentLine, /-, -/}
+//@ oracle: reference transition system of the tooling lexer advanced inside the stub: same reported range and lexical role, nothing over-read, post-state equal to the reference state (inductive invariant, established by LexicalTokens::new); no panic
+//@ bounds: one call may read at most 6 raw tokens; number of calls unbounded by induction; unwind 9
+//@ stubs: <Tok as logos::Logos>::lex -> arbitrary raw token source ending exactly at the source length
+//@ assumes: as c11_step_k6
+//@ replay: tooling
+#[kani::proof]
+#[kani::unwind(9)]
+#[kani::stub(<Tok<'_> as logos::Logos<'_>>::lex, lex_stub)]
+fn c11_tooling_step_k6() {
+    tooling_step_check(6);
 }
